@@ -39,7 +39,7 @@ COMPONENTS = {
              "canopen.sdo.client.SdoClient.read_response / upload / download", "canopen.Network"],
     "stub": ["CAN backend (SimBus)", "can.Notifier", "time/queue in canopen.sdo.client", "RefSdoClient (set-up ii)", "RefSdoServer (set-up iii)"],
 }
-PROBES = ["read-wo", "write-ro", "missing-index", "missing-sub", "wrong-length", "no-value", "toggle-up", "toggle-down",
+PROBES = ["read-wo", "write-ro", "missing-index", "missing-sub-of-record", "missing-sub-of-var", "wrong-length", "no-value", "toggle-up", "toggle-down",
           "unknown-command", "client-decoding", "valid-after-refusal", "refusal-on-closing-segment-of-undeclared-stream"]
 
 WO, RO, NOOBJ, NOSUB, LEN, LEN_HI, LEN_LO, NOVAL1, NOVAL2, TOGGLE, CMD = (
